@@ -165,7 +165,9 @@ def verify(pyfile, fname, lib, setup, on_outcomes, config=None,
         uniq.setdefault(key, ob)
     sites = {}
     for ob in uniq.values():
+        t_ob = time.time()
         discharge(ex, ob, timeout_ms)
+        dt_ob = round(time.time() - t_ob, 2)
         s = sites.setdefault(ob.site, {
             'site': ob.site, 'kind': ob.kind, 'text': ob.text,
             'line': ob.line, 'instances': 0, 'proved': 0, 'refuted': 0,
@@ -173,6 +175,7 @@ def verify(pyfile, fname, lib, setup, on_outcomes, config=None,
             'prop': ob.extra.get('prop')})
         s['instances'] += 1
         s[ob.status] += 1
+        s['max_solve_s'] = max(s.get('max_solve_s', 0.0), dt_ob)
         s['lines'].add(ob.line)
         if ob.status == 'proved':
             s['by'].add(ob.extra.get('by', 'z3'))
